@@ -5,7 +5,9 @@ import (
 	"go/ast"
 	"go/parser"
 	"go/token"
+	"os"
 	"path/filepath"
+	"sort"
 	"strings"
 )
 
@@ -97,7 +99,7 @@ func handlerEvents(fn *ast.FuncDecl) []int {
 				ev = append(ev, 7)
 			case name == "NewStakeAccumulatorCache":
 				ev = append(ev, 7)
-			case recv == "state" && (strings.HasPrefix(name, "Set") || strings.HasPrefix(name, "Remove") || name == "ResumeRuntime" || name == "SuspendRuntime"):
+			case recv == "state" && (strings.HasPrefix(name, "Set") || strings.HasPrefix(name, "Create") || strings.HasPrefix(name, "Remove") || name == "ResumeRuntime" || name == "SuspendRuntime"):
 				if stateRebuilt {
 					ev = append(ev, 5)
 				} else {
@@ -129,6 +131,13 @@ func genAtomicConsts() error {
 		{"go/consensus/cometbft/apps/registry/transactions.go", "registerRuntime", "register_runtime_events"},
 		{"go/consensus/cometbft/apps/roothash/transactions.go", "submitMsg", "submit_msg_events"},
 		{"go/consensus/cometbft/apps/roothash/transactions.go", "submitEvidence", "submit_evidence_events"},
+		{"go/consensus/cometbft/apps/staking/transactions.go", "addEscrow", "add_escrow_events"},
+		{"go/consensus/cometbft/apps/staking/transactions.go", "reclaimEscrow", "reclaim_escrow_events"},
+		{"go/consensus/cometbft/apps/staking/transactions.go", "allow", "allow_events"},
+		{"go/consensus/cometbft/apps/staking/transactions.go", "withdraw", "withdraw_events"},
+		{"go/consensus/cometbft/apps/vault/transactions.go", "create", "vault_create_events"},
+		{"go/consensus/cometbft/apps/vault/transactions.go", "authorizeAction", "vault_authorize_events"},
+		{"go/consensus/cometbft/apps/vault/transactions.go", "cancelAction", "vault_cancel_events"},
 	}
 	var sb strings.Builder
 	sb.WriteString("(* GENERATED by harness/cmd/gen atomicconsts from the registry and roothash transactions.go -- do not edit.\n")
@@ -160,6 +169,84 @@ func genAtomicConsts() error {
 		}
 		fmt.Fprintf(&sb, "Definition %s : list N := [%s].\n", t.coq, strings.Join(items, "; "))
 	}
+	ms, err := txMethods()
+	if err != nil {
+		return err
+	}
+	sb.WriteString("From Coq Require Import String.\nLocal Open Scope string_scope.\n")
+	sb.WriteString("(* every `case <pkg>.MethodX:` of every ExecuteTx under go/consensus/cometbft/apps -> handler function *)\n")
+	var items []string
+	for _, m := range ms {
+		items = append(items, fmt.Sprintf("(%q, %q)", m[0], m[1]))
+	}
+	fmt.Fprintf(&sb, "Definition all_tx_methods : list (string * string) :=\n  [%s].\n", strings.Join(items, ";\n   "))
 	writeIfChanged("AtomicConsts.v", []byte(sb.String()))
 	return nil
+}
+
+// txMethods enumerates ALL transaction handlers of all consensus apps: every function named
+// ExecuteTx under go/consensus/cometbft/apps (non-test files) is searched for `case <pkg>.MethodX:`
+// clauses of a switch; the handler is the first method called on a receiver-like identifier
+// (app / ext / ...) inside the clause. Result: sorted "pkg.MethodX" -> handler function name.
+func txMethods() ([][2]string, error) {
+	root := filepath.Join(repo, "go/consensus/cometbft/apps")
+	var out [][2]string
+	seen := map[string]bool{}
+	err := filepath.Walk(root, func(path string, info os.FileInfo, err error) error {
+		if err != nil || info.IsDir() || !strings.HasSuffix(path, ".go") || strings.HasSuffix(path, "_test.go") {
+			return err
+		}
+		f, err := parser.ParseFile(token.NewFileSet(), path, nil, 0)
+		if err != nil {
+			return err
+		}
+		for _, d := range f.Decls {
+			fd, ok := d.(*ast.FuncDecl)
+			if !ok || fd.Name.Name != "ExecuteTx" || fd.Body == nil {
+				continue
+			}
+			ast.Inspect(fd.Body, func(n ast.Node) bool {
+				cc, ok := n.(*ast.CaseClause)
+				if !ok {
+					return true
+				}
+				for _, e := range cc.List {
+					se, ok := e.(*ast.SelectorExpr)
+					if !ok || !strings.HasPrefix(se.Sel.Name, "Method") {
+						continue
+					}
+					pkg, _ := se.X.(*ast.Ident)
+					if pkg == nil {
+						continue
+					}
+					handler := ""
+					for _, st := range cc.Body {
+						ast.Inspect(st, func(m ast.Node) bool {
+							if handler != "" {
+								return false
+							}
+							if c, ok := m.(*ast.CallExpr); ok {
+								if s2, ok := c.Fun.(*ast.SelectorExpr); ok {
+									if id, ok := s2.X.(*ast.Ident); ok && (id.Name == "app" || id.Name == "ext" || id.Name == "a" || id.Name == "e") {
+										handler = s2.Sel.Name
+										return false
+									}
+								}
+							}
+							return true
+						})
+					}
+					key := pkg.Name + "." + se.Sel.Name
+					if !seen[key] {
+						seen[key] = true
+						out = append(out, [2]string{key, handler})
+					}
+				}
+				return true
+			})
+		}
+		return nil
+	})
+	sort.Slice(out, func(i, j int) bool { return out[i][0] < out[j][0] })
+	return out, err
 }
